@@ -291,6 +291,11 @@
 #[macro_use]
 extern crate derive_builder;
 
+/// Verification-only failpoints (fault injection for rollback checks). Compiled only with `verif-hooks`.
+#[cfg(feature = "verif-hooks")]
+#[doc(hidden)]
+pub mod verif_failpoints;
+
 /// The `core` module contains the primary data structures and algorithms for building and manipulating Delaunay triangulations.
 ///
 /// It includes the `Tds` struct, which represents the triangulation, as well as `Cell`, `Facet`, and `Vertex` components.
